@@ -211,9 +211,9 @@ pub struct TreeOut {
     pub build_panic: Option<String>,
 }
 
-/// Build, set up and dispatch the tree `dispatches` times; `inside`: call
-/// dispatch from inside the pool (`install`).
-pub fn run_tree(t: &Tree, inside: bool, dispatches: u8) -> TreeOut {
+/// Build, set up and dispatch the tree `dispatches` times; `site`: 0 = dispatch is called from outside any
+/// pool, 1 = from inside the tree's own pool (`install`), 2 = from the only worker of a foreign one-thread pool.
+pub fn run_tree(t: &Tree, site: u8, dispatches: u8) -> TreeOut {
     let n = t.leaves();
     let ctx = Ctx::new(n, Ctx::identity_map());
     let mut out = TreeOut::default();
@@ -229,16 +229,21 @@ pub fn run_tree(t: &Tree, inside: bool, dispatches: u8) -> TreeOut {
     root.writes(&mut out.root_writes);
     let pool = Arc::new(rayon::ThreadPoolBuilder::new().build().unwrap());
     let mut ps = ParSeq::new(root, pool.clone());
+    let foreign = if site == 2 { Some(rayon::ThreadPoolBuilder::new().num_threads(1).build().unwrap()) } else { None };
     let mut world = new_world();
     ps.setup(&mut world);
     out.setups = ctx.setups.lock().unwrap().clone();
     for i in 1..=dispatches {
         ctx.dispatch_no.store(i as u32, Ordering::Relaxed);
         let r = catch_unwind(AssertUnwindSafe(|| {
-            if inside {
+            if site == 1 {
                 let w = &world;
                 let psr = &mut ps;
                 pool.install(move || psr.dispatch(w));
+            } else if let Some(f) = &foreign {
+                let w = &world;
+                let psr = &mut ps;
+                f.install(move || psr.dispatch(w));
             } else {
                 ps.dispatch(&world);
             }
@@ -453,7 +458,7 @@ struct TAcc {
     overlaps: u64,
 }
 
-pub fn explore_trees(ts: Vec<(Tree, bool, u8)>, bounds: Vec<u32>, deadline: Instant, threads: usize) -> (TreeStats, Collector, Vec<Value>, Vec<Value>) {
+pub fn explore_trees(ts: Vec<(Tree, u8, u8)>, bounds: Vec<u32>, deadline: Instant, threads: usize) -> (TreeStats, Collector, Vec<Value>, Vec<Value>) {
     let ts = Arc::new(ts);
     let next = Arc::new(AtomicUsize::new(0));
     let results: Arc<Mutex<Vec<(usize, sched::Stats, Collector, u64, u64, i64, bool, Vec<Vec<(Ev, u16)>>)>>> = Arc::new(Mutex::new(Vec::new()));
@@ -522,22 +527,22 @@ pub fn explore_trees(ts: Vec<(Tree, bool, u8)>, bounds: Vec<u32>, deadline: Inst
                             results.lock().unwrap().push((i, sched::Stats::default(), Collector::default(), 0, 0, -1, true, vec![]));
                             continue;
                         }
-                        let (t, inside, d) = &ts[i];
+                        let (t, site, d) = &ts[i];
                         let was = rayon::verif::controlled();
                         rayon::verif::set_controlled(false);
-                        let twin = Arc::new(run_tree(t, *inside, *d));
+                        let twin = Arc::new(run_tree(t, *site, *d));
                         rayon::verif::set_controlled(was);
                         cur = Some(Cur { idx: i, bi: 0, acc: Arc::new(Mutex::new(TAcc { traces: HashSet::new(), found: Collector::default(), overlaps: 0 })), pending: Arc::new(Mutex::new(None)), twin, stats: sched::Stats::default(), col: Collector::default(), ntr: 0, ov: 0, done_bound: -1, capped: false, kept: vec![] });
                         break;
                     }
                     let c = cur.as_ref().unwrap();
-                    let (t, inside, d) = ts[c.idx].clone();
+                    let (t, site, d) = ts[c.idx].clone();
                     let bound = bounds[c.bi];
                     let (acc, acc2, twin, pending) = (c.acc.clone(), c.acc.clone(), c.twin.clone(), c.pending.clone());
-                    let tj = json!({"tree": t.to_json(), "tree_short": t.short(), "inside": inside, "dispatches": d});
+                    let tj = json!({"tree": t.to_json(), "tree_short": t.short(), "inside": site == 1, "site": site, "dispatches": d});
                     let tj2 = tj.clone();
                     let body = move || {
-                        let o = run_tree(&t, inside, d);
+                        let o = run_tree(&t, site, d);
                         let vs = analyze_tree(&t, d, &o, Some(&twin));
                         let mut a = acc.lock().unwrap();
                         if !vs.is_empty() {
@@ -547,7 +552,7 @@ pub fn explore_trees(ts: Vec<(Tree, bool, u8)>, bounds: Vec<u32>, deadline: Inst
                                 a.found.add_lazy("C16", &sig, size, || Finding {
                                     prop: "C16".into(),
                                     sig: sig.clone(),
-                                    msg: format!("{} | tree {} (dispatch from {} the pool) | trace: {}", msg, t.short(), if inside { "inside" } else { "outside" }, o.log.iter().map(|e| e.short()).collect::<Vec<_>>().join(" ")),
+                                    msg: format!("{} | tree {} (dispatch from {} the pool) | trace: {}", msg, t.short(), ["outside", "inside", "a worker of a foreign one-thread pool, not"][site as usize], o.log.iter().map(|e| e.short()).collect::<Vec<_>>().join(" ")),
                                     replay: json!({"kind":"tree-schedule","scenario":tj.clone(),"choices":choices,"bound":bound}),
                                     size,
                                 });
@@ -611,14 +616,24 @@ pub fn explore_trees(ts: Vec<(Tree, bool, u8)>, bounds: Vec<u32>, deadline: Inst
             st.par_trees += 1;
             if ov > 0 {
                 st.overlapping_par_trees += 1;
+            } else if !capped && db >= 1 && par_has_two_nonempty(&ts[i].0) {
+                // "children of a par node may overlap": with at least one preemption allowed, some explored
+                // schedule has to show two leaves inside their windows at once
+                col.add(Finding {
+                    prop: "C16".into(),
+                    sig: "par-children-never-overlap".into(),
+                    msg: format!("no schedule with <= {} preemptions shows two leaves of tree {} running at the same time (dispatch from {} the pool): the children of its par node are serialised", db, ts[i].0.short(), ["outside", "inside", "a worker of a foreign one-thread pool, not"][ts[i].1 as usize]),
+                    replay: json!({"kind":"tree","scenario":{"tree": ts[i].0.to_json(), "site": ts[i].1, "dispatches": ts[i].2}}),
+                    size: ts[i].0.leaves(),
+                });
             }
         }
         if samples.len() < 3 && ntr > 4 {
-            samples.push(json!({"tree": ts[i].0.short(), "dispatch_from_inside_pool": ts[i].1, "schedules": s.executions, "distinct_traces": ntr,
+            samples.push(json!({"tree": ts[i].0.short(), "dispatch_site": ts[i].1, "schedules": s.executions, "distinct_traces": ntr,
                 "one_trace": kept.first().map(|t| t.iter().map(|(k, x)| format!("{:?}({})", k, x)).collect::<Vec<_>>().join(" "))}));
         }
-        for t in kept.iter().take(1) {
-            kept_all.push(json!({"tree": ts[i].0.to_json(), "inside": ts[i].1, "dispatches": ts[i].2, "trace": t.iter().map(|(k, x)| json!([format!("{:?}", k), x])).collect::<Vec<_>>()}));
+        for t in kept.iter().take(if ts[i].1 <= 1 { 1 } else { 0 }) {
+            kept_all.push(json!({"tree": ts[i].0.to_json(), "inside": ts[i].1 == 1, "dispatches": ts[i].2, "trace": t.iter().map(|(k, x)| json!([format!("{:?}", k), x])).collect::<Vec<_>>()}));
         }
         col.merge(c);
     }
@@ -626,6 +641,15 @@ pub fn explore_trees(ts: Vec<(Tree, bool, u8)>, bounds: Vec<u32>, deadline: Inst
         st.min_bound = -1;
     }
     (st, col, samples, kept_all)
+}
+
+/// a par node with at least two children that each contain a leaf
+fn par_has_two_nonempty(t: &Tree) -> bool {
+    match t {
+        Tree::Leaf(..) => false,
+        Tree::Par(c) => c.iter().filter(|x| x.leaves() >= 1).count() >= 2 || c.iter().any(par_has_two_nonempty),
+        Tree::Seq(c) => c.iter().any(par_has_two_nonempty),
+    }
 }
 
 fn par_has_two(t: &Tree) -> bool {
